@@ -27,6 +27,7 @@ from collections import Counter
 from mc import boot
 
 MAX_SAMPLES = 6
+MAX_REPLAYED = 24  # distinct finding keys replayed (twice each) and written out per run
 
 
 def jhash(obj) -> str:
@@ -290,8 +291,12 @@ def finish(
     nviol = 0
     lines = []
     seen_known = set()
+    unknown = [k for k in sorted(acc.viol) if k not in known]
+    skipped = unknown[MAX_REPLAYED:]
     for key in sorted(acc.viol):
         n, case, detail = acc.viol[key]
+        if key in skipped:
+            continue  # a flood of distinct findings: the first MAX_REPLAYED are replayed and reported in full
         # determinism: replay twice without the explorer, same finding key both times
         for _ in range(2):
             try:
@@ -330,6 +335,9 @@ def finish(
             )
         lines.append(f"VIOLATION property={prop} replay={path}")
         lines.append(f"  key={key} cases={n} detail={detail}")
+    if skipped:
+        nviol += len(skipped)
+        lines.append(f"  ... and {len(skipped)} more distinct finding keys (not replayed individually), e.g. {skipped[0]}")
     wall = time.time() - t0
     nstates = states if states is not None else (len(acc.states) + acc.nstates)
     cov = {
